@@ -17,7 +17,20 @@ def c09(tier):
     else:
         pol = dict(max_array=7, max_nested_array=4, max_map=1, max_text=2, max_depth=6,
                    max_total_entries=1, max_total_items=12)
-    return [("jobs_decode", "decode_job", dict(prop="C09", tname=t, policy=pol)) for t in STRUCTS]
+    jobs = [("jobs_decode", "decode_job", dict(prop="C09", tname=t, policy=pol)) for t in STRUCTS]
+    # two sibling structures inside a nested list (order of nested signatures / recipients)
+    sib = dict(max_array=5, max_nested_array=3, max_map=0, max_text=1, max_depth=5, max_total_entries=0,
+               max_total_items=13, root_kinds=["Array"])
+    jobs.append(_dj("C09", "CoseRecipient", dict(sib, root_lens=[4], max_total_items=12), tag=":siblings"))
+    jobs.append(_dj("C09", "CoseSign", dict(sib, root_lens=[4], max_total_items=12), tag=":siblings"))
+    jobs.append(_spine("C09", tier))
+    return jobs
+
+
+def _spine(prop, tier):
+    """Counter-signature nesting spines, one level at a time up to 12 (16) levels, through protected
+    and unprotected headers, bare and list form."""
+    return ("jobs_misc", "spine_job", dict(prop=prop, max_level=12 if tier == "quick" else 16))
 
 
 def _dj(prop, tname, pol, kinds=(), tag=""):
@@ -47,7 +60,9 @@ def c10(tier):
         key = dict(max_array=3, max_map=3, max_text=2, max_depth=3, max_total_entries=3, max_total_items=3)
         ks = dict(max_array=3, max_nested_array=2, max_map=2, max_text=1, max_depth=4, max_total_entries=4,
                   max_total_items=5)
-    return [_dj("C10", "CoseKey", key), _dj("C10", "CoseKeySet", ks)]
+    three = dict(max_array=1, max_map=3, max_text=1, max_depth=2, max_total_entries=3, max_total_items=1, map_lens=[3],
+                 map_key_kinds=["Integer", "Text"], map_value_kinds=["Integer", "Bytes"])
+    return [_dj("C10", "CoseKey", key), _dj("C10", "CoseKey", three, tag=":three"), _dj("C10", "CoseKeySet", ks)]
 
 
 def c12_decode(tier):
@@ -184,7 +199,7 @@ def _rj(prop, t, tier, built=False):
 
 
 def c07(tier):
-    return [_rj("C07", t, tier) for t in ALL_TYPES]
+    return [_rj("C07", t, tier) for t in ALL_TYPES] + [_spine("C07", tier)]
 
 
 def c02(tier):
@@ -200,7 +215,7 @@ def c02(tier):
 
 
 def c11(tier):
-    n = 1 if tier == "quick" else 2
+    n = 2 if tier == "quick" else 3
     # (COSE_KDF_Context has private fields: its builder-made twin cannot be rebuilt natively, so it is
     # covered as decoded, through C07)
     jobs = [_rj("C11", t, tier, built=True) for t in ALL_TYPES if t != "CoseKdfContext"]
@@ -275,6 +290,7 @@ def c01(tier):
         jobs.append(_sj("C01", t, _struct_pol(tier, top), False))
     lv = [1, 2, 4, 8, 16, 32] if tier == "quick" else [1, 2, 4, 8, 16, 32, 64, 128]
     jobs.append(("jobs_misc", "depth_job", dict(prop="C01", levels=lv, native_levels=2000)))
+    jobs.append(_spine("C01", tier))
     return jobs
 
 
